@@ -66,7 +66,7 @@ func GetCache(cacheFile string) MemCache {
 	b, err := ioutil.ReadFile(cacheFile)
 	if err == nil {
 		err = json.Unmarshal(b, &mem)
-		if err == nil && mem.ShardNo == shardNo {
+		if err == nil && mem.ShardNo == shardNo && mem.Cache.complete() {
 			return mem.Cache
 		}
 	}
@@ -77,6 +77,20 @@ func GetCache(cacheFile string) MemCache {
 	}
 
 	return m
+}
+
+// complete reports whether a loaded cache has every shard and every shard has its map;
+// a hand-edited or damaged cache file that lacks them must not be used
+func (m MemCache) complete() bool {
+	if len(m) != shardNo {
+		return false
+	}
+	for _, shard := range m {
+		if shard == nil || shard.Templates == nil {
+			return false
+		}
+	}
+	return true
 }
 
 func (m MemCache) getShard(id uint16, addr net.IP) (*TemplatesShard, string) {
